@@ -194,6 +194,12 @@ func (e *Exec) eval(x ast.Expr, c *Ctx) Term {
 
 func (e *Exec) specType(x ast.Expr, c *Ctx) *Type {
 	s := exprText(x)
+	// a ghost type that is not a Go expression (gmap[...]...) is written as a string literal
+	if bl, ok := x.(*ast.BasicLit); ok && bl.Kind == token.STRING {
+		if u, err := strconv.Unquote(bl.Value); err == nil {
+			s = u
+		}
+	}
 	// a type parameter of the function under verification
 	for f := c.fr; f != nil; f = f.parent {
 		if f.fi == nil {
@@ -464,6 +470,18 @@ func (e *Exec) unary(v *ast.UnaryExpr, c *Ctx) Term {
 		return e.eval(v.X, c)
 	case token.AND:
 		if cl, ok := v.X.(*ast.CompositeLit); ok {
+			if !c.spec {
+				if pt := e.prog.TypeOf(c.fr.info.Types[v].Type, c.fr.subst); pt.K == KRef && pt.Name == "" && pt.Elem != nil && (pt.Elem.K == KMap || pt.Elem.K == KSlice) {
+					// &map[K]V{...} / &[]T{...}: a fresh cell that holds the map reference / the slice value
+					val := e.compositeLit(cl, c, false)
+					r := Term{e.alloc(c.st, "cell"), pt}
+					at := &Type{K: KGMap, Key: tInt, Elem: pt.Elem}
+					key := "P!" + mangle(e.Sort(pt.Elem))
+					h := e.get(c.st, key, at)
+					e.set(c.st, key, Term{fmt.Sprintf("(store %s %s %s)", h.S, r.S, e.coerce(val, pt.Elem, c.st).S), at})
+					return r
+				}
+			}
 			return e.compositeLit(cl, c, true)
 		}
 		// address of a local struct variable: the variable is moved to a fresh heap object (it escapes)
@@ -498,6 +516,28 @@ func (e *Exec) unary(v *ast.UnaryExpr, c *Ctx) Term {
 					e.set(c.st, key, Term{fmt.Sprintf("(store %s %s %s)", h.S, r.S, e.coerce(cur, t.Elem, c.st).S), at})
 				}
 				return r
+			}
+		}
+		// address of a slice element: a deterministic (non-nil) function of the backing array and the index; the
+		// element is read through the slice, never through this pointer, in the code under contract
+		if ix, ok := unparen(v.X).(*ast.IndexExpr); ok {
+			base := e.eval(ix.X, c)
+			if base.T.K == KSlice {
+				idx := e.eval(ix.Index, c)
+				if !c.spec {
+					e.safetyAssert(c, "index", fmt.Sprintf("(and (<= 0 %s) (< %s %s))", idx.S, idx.S, e.seqLen(base)), exprText(ix), ix)
+				}
+				var pt *Type
+				if !c.spec {
+					pt = e.prog.TypeOf(c.fr.info.Types[v].Type, c.fr.subst)
+				} else if base.T.Elem != nil && base.T.Elem.G != nil {
+					pt = e.prog.TypeOf(types.NewPointer(base.T.Elem.G), nil)
+				}
+				if pt != nil {
+					fn := "elemaddr!" + mangle(e.Sort(base.T))
+					e.vc.Decl("fun:"+fn, fmt.Sprintf("(declare-fun %s ((Array Int %s) Int) Int)\n(assert (forall ((a!e (Array Int %s)) (i!e Int)) (! (> (%s a!e i!e) 0) :pattern ((%s a!e i!e)))))", fn, e.Sort(base.T.Elem), e.Sort(base.T.Elem), fn, fn))
+					return Term{fmt.Sprintf("(%s %s %s)", fn, e.seqArr(base), idx.S), pt}
+				}
 			}
 		}
 		// address of a field or variable: not modelled
